@@ -245,6 +245,9 @@ var c01Universe = []c01BStore{
 		sy("roles", "set", ast.NodeTypeString, -1), sy("owner", "field", ast.NodeTypeString, 1), sy("boss", "field", ast.NodeTypeString, 0),
 		sy("groups", "set", ast.NodeTypeString, 1), sy("kidref", "field", ast.NodeTypeString, 2), sy("kids", "set", ast.NodeTypeString, 2),
 		sy("nums", "set", ast.NodeTypeInt64, -1), sy("mixed", "set", ast.NodeTypeAnyType, -1),
+		// a self-referential link set (employees.directReports -> employees): sub-queries over it scan the entity type
+		// that is being scanned
+		sy("peers", "set", ast.NodeTypeString, 0),
 		{name: "mowner", kind: "mapped", typ: ast.NodeTypeString, linked: 1, key: "mowner", mapper: 0},
 		{name: "flagx", kind: "mapped", typ: ast.NodeTypeBool, linked: -1, key: "fx", mapper: 2},
 		{name: "xcalc", kind: "ext", typ: ast.NodeTypeAnyType, linked: -1, ext: &c01ExtTab{kind: 'f'}}},
@@ -253,6 +256,7 @@ var c01Universe = []c01BStore{
 		sy("id", "id", ast.NodeTypeString, -1), sy("label", "field", ast.NodeTypeString, -1), sy("rank", "field", ast.NodeTypeInt64, -1),
 		sy("active", "field", ast.NodeTypeBool, -1), sy("boss", "field", ast.NodeTypeString, 1),
 		sy("members", "set", ast.NodeTypeString, 0), sy("roles", "set", ast.NodeTypeString, -1), sy("exts", "set", ast.NodeTypeString, 3),
+		sy("subs", "set", ast.NodeTypeString, 1), // self-referential
 		{name: "vip", kind: "ext", typ: ast.NodeTypeBool, linked: -1, ext: &c01ExtTab{kind: 'b'}},
 		{name: "nick", kind: "ext", typ: ast.NodeTypeString, linked: -1, ext: &c01ExtTab{kind: 's'}},
 		{name: "calc", kind: "ext", typ: ast.NodeTypeInt64, linked: -1, ext: &c01ExtTab{kind: 'f'}},
